@@ -64,7 +64,7 @@ class OM:
 class World:
     """Configuration + object models for one executor instance."""
 
-    def __init__(self, rng, ns=1, nid=None, small=False, enum64=False, huge=()):
+    def __init__(self, rng, ns=1, nid=None, small=False, enum64=False, huge=(), resetdev=False):
         self.rng, self.ns = rng, ns
         self.nid = nid if nid is not None else rng.choice([1, 1, 2, 64, 127])
         cfg = Config(nodeid=self.nid, freq=1000, tmrnum=8)
@@ -126,6 +126,10 @@ class World:
         for i, u in enumerate(usr):
             cfg.add(Obj(0x2130, i, RW, "usr", "U", u[0], u[1], u[2], "%x" % u[3], 0x11223344))
             m[(0x2130, i)] = OM(0x2130, i, "usr", RW, usr=u)
+        if resetdev:
+            # a "firmware download" object of 1000 bytes whose write function resets the communication (the application restarts the
+            # node when it has seen the header); not part of the model
+            cfg.add(Obj(0x2131, 0, RW, "usr", "U", 1000, 0, 0, "c0de0092", 0))
         # SDO client parameters (writable, not part of the model: only hostile traffic touches them)
         gen.add_csdo(cfg, 0, server=rng.choice([2, 5, 127]))
         cfg.finalize()
